@@ -309,6 +309,11 @@ def main():
     report = []
     try:
         mod = ast.parse((REPO / SRC).read_text())
+        try:
+            import guard
+            guard.check("streams/memory.py", mod)
+        except guard.GuardError as e:
+            raise Refuse(str(e))
         state = find_class(mod, "_MemoryObjectStreamState")
         if [ast.unparse(n) for n in state.body if isinstance(n, ast.AnnAssign)] != STATE_FIELDS:
             raise Refuse("_MemoryObjectStreamState: unexpected fields")
